@@ -147,7 +147,7 @@ def parseOp (st : St) (line : String) : Option Op :=
 
 def step (st : St) (line : String) : St × String :=
   if st.dead then (st, "dead") else
-  match parseOp st line with
+  match (parseOp st line).filter (fun op => op.units.all (· < st.w.nU)) with
   | none => bad st
   | some (.pop k u i) =>
     let ret := match ((st.w.side k).lst u)[i]? with
